@@ -624,6 +624,21 @@ func c07Run(c *fw.Ctx) {
 			}
 		}
 	}
+	if c.Shard == 3%c.NShards {
+		// a long-lived connection: 300 one-frame messages and then boundary lengths (frame counters 0…303), read with
+		// net/http's buffer policy; every frame in a segment of its own, and all coalesced
+		long := make([]int, 300)
+		for i := range long {
+			long[i] = 1 + i%3
+		}
+		long = append(long, 1024, 1025)
+		c07Exec(c, c07Case{Lens: long, Bufs: []int{1, 4096}})
+		var all []int
+		for i := 0; i < len(long)-1; i++ {
+			all = append(all, i)
+		}
+		c07Exec(c, c07Case{Lens: long, Coalesce: all, Bufs: []int{4096}})
+	}
 	if c.Shard == 1%c.NShards {
 		// idle periods are read deadlines set by the connection's user (net/http sets and clears them around every
 		// request): whatever sequence of deadline calls it makes, the socket ends up with the deadlines it asked for —
@@ -765,7 +780,7 @@ func init() {
 	fw.Register(&fw.Check{
 		ID:    "C07",
 		Level: "model_checking",
-		Rule:  "deviation-bounded exhaustive exploration of network behaviours for a real hap.Connection over a scripted net.Conn: message sequences of length 1–2 (thorough 1–3) over lengths {1,2,17,1023,1024,1025,2048,4095,4096,4097} × 6 caller-buffer policies (1, 7, 1024, 4096, 8192, net/http's 1-then-4096); 0 deviations = one segment per message; deviations = split at every byte offset, coalesce adjacent segments, read timeout before a segment, the application writing on the connection between caller reads; bound 1 completely, bound 2 for split+timeout, coalesce+split (thorough: all length pairs; every pair of splits for messages ≤1025). Plus the session-switch scenarios: every placement of 1–3 Read calls (blocked until data or aborted by a timeout) relative to the world steps install-cryptographer / write-response / first-ciphertext-arrives: the response must reach the wire in plaintext and the request must be delivered as its plaintext. Oracle per execution: exact byte equality, no EOF/error/close while the peer sends well-formed frames, and the promptness invariant (the network is asked for more only when every completely received frame has been handed to the caller). states = executions, distinct_nontrivial = distinct (deviation kind, message count, number of underlying reads) classes Frames WITHOUT data (length 0, valid tag) between and around messages, at every split offset. Two connections of one accessory read alternately after earlier connections were closed 0–3 times each: each delivers exactly what its peer sent. Session-switch scenarios are repeated for a SECOND pair-verify on a connection that is already encrypted (one request delivered under the first keys; the second exchange's response leaves under the first keys, what follows is read under the new ones). Plus, in a subprocess built with a scheduling point before EVERY statement of hc's packages (textual insertion through go build -overlay): every interleaving with at most 1 (thorough 2) preemptions of pairs of handlers / users of connections on one accessory (a verified and a newly accepted unverified connection; two writers, a writer and the reader of one encrypted connection, writers on two connections) — each side must observe exactly what it observes when the two run one after the other. Plus the opposite corner: streams of 1–3 messages cut into equal pieces of 100, 333, 1000 bytes that do not line up with frames, with a read timeout before EVERY piece (up to 31 timeouts in one stream), for three buffer policies. Plus every sequence of ≤3 (thorough ≤4) SetDeadline / SetReadDeadline / SetWriteDeadline calls over the values {none, net/http's long-ago, two future instants} on the hap.Connection: after every call the read and write deadlines in force on the underlying socket are those a direct caller would have left (net/http sets and clears read deadlines around every request; one that stays in force makes later reads fail while frames arrive).",
+		Rule:  "deviation-bounded exhaustive exploration of network behaviours for a real hap.Connection over a scripted net.Conn: message sequences of length 1–2 (thorough 1–3) over lengths {1,2,17,1023,1024,1025,2048,4095,4096,4097} × 6 caller-buffer policies (1, 7, 1024, 4096, 8192, net/http's 1-then-4096); 0 deviations = one segment per message; deviations = split at every byte offset, coalesce adjacent segments, read timeout before a segment, the application writing on the connection between caller reads; bound 1 completely, bound 2 for split+timeout, coalesce+split (thorough: all length pairs; every pair of splits for messages ≤1025). Plus the session-switch scenarios: every placement of 1–3 Read calls (blocked until data or aborted by a timeout) relative to the world steps install-cryptographer / write-response / first-ciphertext-arrives: the response must reach the wire in plaintext and the request must be delivered as its plaintext. Oracle per execution: exact byte equality, no EOF/error/close while the peer sends well-formed frames, and the promptness invariant (the network is asked for more only when every completely received frame has been handed to the caller). states = executions, distinct_nontrivial = distinct (deviation kind, message count, number of underlying reads) classes Frames WITHOUT data (length 0, valid tag) between and around messages, at every split offset. Two connections of one accessory read alternately after earlier connections were closed 0–3 times each: each delivers exactly what its peer sent. Session-switch scenarios are repeated for a SECOND pair-verify on a connection that is already encrypted (one request delivered under the first keys; the second exchange's response leaves under the first keys, what follows is read under the new ones). Plus, in a subprocess built with a scheduling point before EVERY statement of hc's packages (textual insertion through go build -overlay): every interleaving with at most 1 (thorough 2) preemptions of pairs of handlers / users of connections on one accessory (a verified and a newly accepted unverified connection; two writers, a writer and the reader of one encrypted connection, writers on two connections) — each side must observe exactly what it observes when the two run one after the other. Plus a long-lived connection (302 messages, frame counters up to 303). Plus the opposite corner: streams of 1–3 messages cut into equal pieces of 100, 333, 1000 bytes that do not line up with frames, with a read timeout before EVERY piece (up to 31 timeouts in one stream), for three buffer policies. Plus every sequence of ≤3 (thorough ≤4) SetDeadline / SetReadDeadline / SetWriteDeadline calls over the values {none, net/http's long-ago, two future instants} on the hap.Connection: after every call the read and write deadlines in force on the underlying socket are those a direct caller would have left (net/http sets and clears read deadlines around every request; one that stays in force makes later reads fail while frames arrive).",
 		Run:   c07Run,
 		Replay: func(c *fw.Ctx, raw json.RawMessage) {
 			var dc dlcheck.Case
